@@ -5,5 +5,5 @@ git -C /repo apply /verif/seeded/$d/patch.diff || { echo "APPLY FAILED $d"; exit
 for p in "$@"; do
   /verif/check $p > /tmp/seedtest.$d.$p.out 2>&1; echo "$d $p exit=$? $(grep -E 'VIOLATION|UNDECIDED|^OK' /tmp/seedtest.$d.$p.out | head -3 | tr '\n' ' ')"
 done
-git -C /repo checkout -- .
+git -C /repo apply -R /verif/seeded/$d/patch.diff 2>/dev/null; git -C /repo checkout -- .   # (-R also removes files the patch added)
 git -C /verif checkout -- evidence 2>/dev/null
